@@ -29,7 +29,7 @@ func checkC19(p *Program, r *Report) {
 	r.Explain("C19: R1 every entry K: reflect.ValueOf(X) / reflect.TypeOf(X) stored in env.Packages[P] / env.PackageTypes[P] resolves (go/types) to the exported object or named type K of the package whose import path is P — exhaustive over all table entries of the loaded build configuration. " +
 		"R2 P is a string constant and all entries of the table come from package P. " +
 		"R3 every builtin the statement lists is defined by core.Import with a function value of the contract's result type; no process-exit call is reachable in core/packages table code. " +
-		"R8 in the builtins reflect.Value.Convert(t) only on the true side of ConvertibleTo(t). R6 a byte of a string converted to a rune only where the string is known to hold a single byte (the first character of a string is its first rune). R7 strconv.FormatFloat with bitSize 32 only for a value that is a float32. " +
+		"R9 the value of a strconv parse is used only on the err == nil side. R8 in the builtins reflect.Value.Convert(t) only on the true side of ConvertibleTo(t). R6 a byte of a string converted to a rune only where the string is known to hold a single byte (the first character of a string is its first rune). R7 strconv.FormatFloat with bitSize 32 only for a value that is a float32. " +
 		"R5 an integer read from a numeral string is parsed exactly: a strconv.ParseFloat whose result is truncated to an integer lies on the failure edge of strconv.ParseInt of the same string. " +
 		"R4 structural clauses of range/keys/toSlice on SSA: argument-count and zero-step rejections dominate the loop; the loop is a counting loop appending its own induction variable with strict bounds in both directions; keys copies one element per MapKeys entry; toSlice stores Zero on the non-convertible edge.")
 	r.Assume("numeric behaviour of range near the int64 limits and of toInt/toFloat/toString versus strconv/fmt is value-level and not decided")
@@ -393,6 +393,7 @@ func c19Builtin(p *Program, r *Report) {
 	c19ExactFirst(p, r)
 	c19TextConversions(p, r)
 	c19ConvertGuarded(p, r)
+	c19ParseResultUsed(p, r)
 	// R4: structural clauses on SSA
 	lits := map[string]*ssa.Function{}
 	for _, fn := range SrcFuncs(sp) {
@@ -1060,6 +1061,131 @@ func sameTypeValue(a, b ssa.Value) bool {
 			ma, okA := ca.Call.Args[0].(*ssa.MakeInterface)
 			mb, okB := cb.Call.Args[0].(*ssa.MakeInterface)
 			return okA && okB && types.Identical(ma.X.Type(), mb.X.Type())
+		}
+	}
+	return false
+}
+
+// c19ParseResultUsed (R9): the value a strconv parse returns is used only where its error is nil (the other side holds a partial
+// or zero result): in the builtins, the literal conversion and the numeric converters of vm.
+func c19ParseResultUsed(p *Program, r *Report) {
+	n := 0
+	for _, suffix := range []string{"core", "vm", "parser"} {
+		sp := p.SSAPkg(suffix)
+		if sp == nil {
+			continue
+		}
+		for _, fn := range SrcFuncs(sp) {
+			k := 0
+			for _, b := range fn.Blocks {
+				for _, in := range b.Instrs {
+					c, ok := in.(*ssa.Call)
+					if !ok {
+						continue
+					}
+					o := calleeObj(c)
+					if o == nil || o.Pkg() == nil || o.Pkg().Path() != "strconv" || !strings.HasPrefix(o.Name(), "Parse") {
+						continue
+					}
+					var val, errV *ssa.Extract
+					for _, ref := range *c.Referrers() {
+						if ex, ok := ref.(*ssa.Extract); ok {
+							if ex.Index == 0 {
+								val = ex
+							} else {
+								errV = ex
+							}
+						}
+					}
+					if val == nil || errV == nil {
+						continue
+					}
+					n++
+					k++
+					bad := ""
+					var uses []ssa.Instruction
+					var collect func(v ssa.Value, depth int)
+					collect = func(v ssa.Value, depth int) {
+						if depth > 3 {
+							return
+						}
+						for _, ref := range *v.Referrers() {
+							switch x := ref.(type) {
+							case *ssa.DebugRef:
+							case *ssa.Phi:
+								collect(x, depth+1)
+							case *ssa.Store:
+								// a result variable or a local: follow the loads
+								if al, ok := x.Addr.(*ssa.Alloc); ok {
+									for _, r2 := range *al.Referrers() {
+										if u, ok := r2.(*ssa.UnOp); ok {
+											for _, r3 := range *u.Referrers() {
+												if _, isDbg := r3.(*ssa.DebugRef); !isDbg {
+													uses = append(uses, r3)
+												}
+											}
+										}
+									}
+								} else {
+									uses = append(uses, x)
+								}
+							default:
+								uses = append(uses, ref)
+							}
+						}
+					}
+					collect(val, 0)
+					for _, u := range uses {
+						if !onNilErrorSide(u.Block(), errV) {
+							bad = p.Pos(instrPos(u))
+						}
+					}
+					r.Check(bad == "", "C19.R9", fmt.Sprintf("%s|%s #%d result used only without error", funcName(fn), o.Name(), k), p.Pos(c.Pos()), "every use lies on the err == nil side",
+						"the value returned by strconv."+o.Name()+" is used at "+bad+" where its error is not known to be nil: a failed parse yields a partial or zero value as if it were the number")
+				}
+			}
+		}
+	}
+	r.Floor("C19.R9", n, 8)
+}
+
+// onNilErrorSide: block b is only reached when error value e compared nil (directly or through a local it was stored into).
+func onNilErrorSide(b *ssa.BasicBlock, e ssa.Value) bool {
+	same := func(v ssa.Value) bool {
+		if v == e {
+			return true
+		}
+		// a load of a local the error was stored into
+		if u, ok := v.(*ssa.UnOp); ok {
+			if al, ok := u.X.(*ssa.Alloc); ok {
+				for _, ref := range *al.Referrers() {
+					if st, ok := ref.(*ssa.Store); ok && st.Val == e {
+						return true
+					}
+				}
+			}
+		}
+		if ph, ok := v.(*ssa.Phi); ok {
+			for _, x := range ph.Edges {
+				if x == e {
+					return true
+				}
+			}
+		}
+		return false
+	}
+	for d := b; d != nil && d.Idom() != nil; d = d.Idom() {
+		id := d.Idom()
+		iff, ok := id.Instrs[len(id.Instrs)-1].(*ssa.If)
+		if !ok {
+			continue
+		}
+		bo, ok := iff.Cond.(*ssa.BinOp)
+		if !ok || !isNilConst(bo.Y) || !same(bo.X) {
+			continue
+		}
+		if (bo.Op == token.EQL && edgeOnly(id, 0, d)) || (bo.Op == token.NEQ && edgeOnly(id, 1, d)) {
+			return true
 		}
 	}
 	return false
